@@ -438,9 +438,11 @@ def run(chk):
     rule_global_state(chk, prog)
     rule_translation(chk, prog)
     from .c09 import rule_paired_borders
-    from .c05 import rule_turn_prune_mirror
+    from .c05 import rule_turn_prune_mirror, rule_flags_mirror, rule_endpoint_dirs
     rule_paired_borders(chk, prog)
     rule_turn_prune_mirror(chk, prog)
+    rule_flags_mirror(chk, prog)          # low/high passes of the visibility flags are mirror images
+    rule_endpoint_dirs(chk, prog)         # up/down permitted directions are treated alike
     from ..rules import mirrors
     r = chk.rule("MIRROR", "the x and y twins of the rectangle / box accessors and movers are mirror images (tables/mirrors.json): a "
                  "transposed scene is treated as the transpose", floor=8)
